@@ -232,11 +232,21 @@ def _run_rule(case):
             flags["non_scatterer_clear_error"] = True
         except Exception:
             flags["non_scatterer_clear_error"] = False
-        try:
-            calc_holo(det, obj, o["medium_index"], o["illum_wavelen"], o["illum_polarization"])
-            flags["non_scatterer_calc_raises"] = False
-        except Exception:
-            flags["non_scatterer_calc_raises"] = True
+        # the public calculations say so too: a HoloPy error naming the problem, not an AttributeError from half-way in (F130)
+        from holopy.scattering.errors import InvalidScatterer
+        from holopy.scattering import calc_field, calc_cross_sections
+        ok = True
+        for call in (lambda: calc_holo(det, obj, o["medium_index"], o["illum_wavelen"], o["illum_polarization"]),
+                     lambda: calc_field(det, obj, o["medium_index"], o["illum_wavelen"], o["illum_polarization"]),
+                     lambda: calc_cross_sections(obj, o["medium_index"], o["illum_wavelen"], o["illum_polarization"])):
+            try:
+                call()
+                ok = False
+            except (InvalidScatterer, AutoTheoryFailed):
+                pass
+            except Exception:
+                ok = False
+        flags["non_scatterer_calc_raises"] = ok
         return {"resid": {}, "flags": flags, "fmax": 1.0, "expected": "AutoTheoryFailed"}
     a = dict(medium_index=o["medium_index"], illum_wavelen=o["illum_wavelen"], illum_polarization=o["illum_polarization"])
     if exp == "DDA":
